@@ -28,6 +28,22 @@ fn expect_err_dec(ty: u8, body: Vec<u8>, why: &str) {
 }
 fn main() {
     std::panic::set_hook(Box::new(|_| {}));
+    battery();
+    // CALL-HISTORY independence: conversions that are refused half-way (an argument that AMF0 cannot carry, behind values that
+    // it can) must leave nothing behind; the whole battery is run again after them
+    let mut bad_name = std::collections::HashMap::new(); bad_name.insert(String::new(), Amf0Value::Number(1.0));
+    let refused = vec![
+        RtmpMessage::Amf0Command { command_name: "publish".into(), transaction_id: 5.0, command_object: Amf0Value::Null, additional_arguments: vec![Amf0Value::Utf8String("stream".into()), Amf0Value::Utf8String("x".repeat(65536))] },
+        RtmpMessage::Amf0Data { values: vec![Amf0Value::Utf8String("onMetaData".into()), Amf0Value::Number(1.0), Amf0Value::Object(bad_name)] },
+        RtmpMessage::Amf0Data { values: vec![Amf0Value::StrictArray(vec![Amf0Value::Boolean(true), Amf0Value::Utf8String("y".repeat(70000))])] },
+        RtmpMessage::SetChunkSize { size: 0xFFFF_FFFF },
+    ];
+    for m in refused { let _ = enc(m); }
+    for (ty, b) in [(20u8, vec![2u8, 0, 7, b'c', b'o']), (18, vec![0x0A, 0, 0, 0, 5, 5]), (4, vec![0]), (1, vec![0xFF, 0xFF, 0xFF, 0xFF]), (20, vec![2, 0, 1, b'x', 0, 0, 0, 0, 0, 0, 0, 0, 0])] { let _ = dec(&payload(ty, b)); }
+    battery();
+    println!("NONE");
+}
+fn battery() {
     let u32s = [0u32, 1, 255, 256, 65535, 65536, 0xFFFFFF, 0x1000000, 0x7FFFFFFE, 0x7FFFFFFF, 0x80000000, 0x80000001, 0xFFFFFFFF, 0x12345678];
     for &v in &u32s {
         let be = v.to_be_bytes().to_vec();
@@ -115,5 +131,4 @@ fn main() {
         std::thread::spawn(move || { let mut b = vec![]; for _ in 0..3 { b.extend_from_slice(&[0x0A, 0xFF, 0xFF, 0xFF, 0xFF]); } let _ = dec(&payload(18, b)); let _ = tx.send(()); });
         if rx.recv_timeout(std::time::Duration::from_secs(60)).is_err() { fail("to_rtmp_message(type 18, three nested strict arrays announcing 2^32-1 elements, no elements present) did not return within 60 s".into()); }
     }
-    println!("NONE");
 }
